@@ -6,6 +6,8 @@
 #include <cstring>
 #include <new>
 
+#include <valgrind/memcheck.h>
+
 #if defined(__SANITIZE_ADDRESS__)
 #define SIM_ASAN 1
 #else
@@ -196,6 +198,7 @@ void *do_alloc(size_t size, bool nothrow)
     std::memset(p + size, 0xFB, TAIL);
     // new memory is deliberately NOT zeroed: fill with a recognisable pattern
     std::memset(p, 0xCD, size);
+    VALGRIND_MAKE_MEM_UNDEFINED(p, size); // under memcheck fresh memory stays "uninitialised"
     (void)nothrow;
     return p;
 #else
